@@ -433,6 +433,18 @@ def gen_loop(rng, P=None):
         t.trans.append(Tr(1, cond=("and", ("succeeded",), ("ctx_ge", "i", bound)), lang=lang, form=rng.randint(0, 3),
                           pubs=[("z", ("cat", "z", "|exit"))], do=[]))
         m.tags.add("loop_join")
+    if rng.random() < P.get("p_loop_items_change", 0.0) and "loop_join" not in m.tags:
+        # a with-items task in the body whose list is replaced by the looping transition: every pass has its own item count
+        first = m.tasks[body[0]]
+        if first.items is None:
+            first.items = dict(var="xs", conc=rng.choice([None, 1, 2]), named=None)
+            first.action = "core.echo"
+            first.ainput = {"message": ("item",)}
+            first.retry = None
+        m.input.append(("xs2", [7, 8, 9, 10]))
+        inputs["xs2"] = [70 + q for q in range(rng.choice([0, 1, 3, 4, 5]))]
+        m.tasks[body[-1]].trans[0].pubs.append(("xs", ("ref", "xs2")))
+        m.tags.add("loop_items_change")
     if rng.random() < P.get("p_loop_count_changes", 0.3):
         # retry count taken from a variable that the loop itself lowers between visits
         first = m.tasks[body[0]]
@@ -476,7 +488,7 @@ def gen_loop(rng, P=None):
 
 
 def _tag(m):
-    tags = set(t for t in m.tags if t in ("latevar", "loop", "loop_join", "loop_fork", "loop_fork_single", "loop_multi_entry"))
+    tags = set(t for t in m.tags if t in ("latevar", "loop", "loop_join", "loop_fork", "loop_fork_single", "loop_multi_entry", "loop_items_change"))
     for t in m.tasks.values():
         if t.join is not None:
             tags.add("join")
